@@ -467,7 +467,7 @@ class PipelineBuilder:
         they are applied.
         """
 
-        clone = PipelineBuilder()
+        clone = PipelineBuilder(self.name, self.version)
 
         for node in self.nodes():
             match node:
